@@ -33,6 +33,9 @@ def cases(rng, tier):
             instrs = gen.rand_instrs(rng, nq, rng.randint(1, 7), barriers=rng.random() < 0.2, p2=0.45, families="integer")
             for _ in range(rng.randint(1, 3)):
                 instrs.insert(rng.randint(0, len(instrs)), {"name": "cut_wire", "qubits": [rng.randrange(nq)]})
+            if rng.random() < 0.35:
+                # a barrier across the whole input circuit, before / between / after the markers
+                instrs.insert(rng.randint(0, len(instrs)), {"name": "barrier", "qubits": list(range(nq))})
             nobs_q = nq
         elif kind == "fresh_moves":
             # logical qubits 0..k-1 start on wires 0..k-1; each Move goes to a never-used wire and the source is never used again
@@ -57,14 +60,28 @@ def cases(rng, tier):
             # Move chains that re-use qubits: move back and forth between two wires
             a, b = 0, 1
             instrs.append(gen.rand_1q(rng, a))
-            for _ in range(rng.randint(2, 4)):
+            tail = nq > 2 and rng.random() < 0.5
+            nmoves = rng.choice([2, 2, 2, 3, 3, 4])
+            for mv in range(nmoves):
                 instrs.append({"name": "move", "qubits": [a, b]})
-                instrs.append(gen.rand_1q(rng, b))
-                if nq > 2 and rng.random() < 0.5:
-                    instrs.append(gen.rand_2q(rng, [b, 2], "integer"))
+                if tail and mv == nmoves - 1:
+                    # after its last reset the wire occurs only as a second operand; the effect is visible on wire 2
+                    instrs.append(gen.rand_1q(rng, 2))
+                    for _ in range(rng.randint(1, 2)):
+                        instrs.append(gen.rand_2q(rng, [2, b], "integer"))
+                        instrs.append(gen.rand_1q(rng, 2))
+                    a, b = b, a
+                    break
+                if rng.random() < 0.6:
+                    instrs.append(gen.rand_1q(rng, b))
+                if nq > 2 and rng.random() < 0.6:
+                    # the re-used wire as first or as second operand (cx target, second argument of cz)
+                    instrs.append(gen.rand_2q(rng, [b, 2] if rng.random() < 0.4 else [2, b], "integer"))
                 a, b = b, a
             nobs_q = nq
         obs = gen.rand_paulis(rng, nobs_q, rng.randint(1, 3), rng.choice(["IIXYZ", "IZ", "I", "IIIZ"]))
+        if kind == "reuse_chain" and tail:
+            obs = gen.rand_paulis(rng, nobs_q, rng.randint(1, 3), "XYZ")
         if kind != "markers":
             # a Move source that is "never used afterwards" is not measured either: identity there
             last = {}
@@ -72,6 +89,9 @@ def cases(rng, tier):
                 for q in ins["qubits"]:
                     last[q] = ins
             srcs = {q for q, ins in last.items() if ins["name"] == "move" and ins["qubits"][0] == q}
+            if kind == "reuse_chain" and (tail or rng.random() < 0.4):
+                # nothing is measured on the wire the chain ends on (it may then occur only as a second operand after its reset)
+                srcs = srcs | {a}
             for o in obs:
                 o["l"] = "".join("I" if q in srcs else c for q, c in enumerate(o["l"]))
         yield ("workflow", {"kind": kind, "nq": nq, "qregs": gen.rand_regs(rng, nq), "instrs": instrs, "obs": obs,
@@ -218,6 +238,9 @@ def oracle(kind, payload):
                     return f"subexperiment {k} of partition {lab!r}: wire {q} is {seq}"
             if payload["kind"] != "reuse_chain" and any(i.operation.name == "reset" for i in c.data):
                 return f"no qubit is re-used, yet subexperiment {k} of partition {lab!r} contains a reset"
+    if payload["N"] is not None:
+        # the value clause is exact only for the full expansion: same problem with an infinite budget
+        return oracle(kind, dict(payload, N=None))
     if payload["N"] is None:
         # values unaffected by the removals: reconstruct from exactly simulated subexperiments
         results = {lab: SamplerResult([QuasiDistribution(d) for d in workflow.exact_quasi_dists(cs)], [{}] * len(cs)) for lab, cs in exps.items()}
